@@ -14,15 +14,45 @@ M3 == [i |-> Id(3, 0), e |-> Id(0, 0), r |-> Id(1, 0)]
 MC_Maps == {M1, M2}
 MC_Maps3 == {M1, M2, M3}
 MC_GMaps == {NoMap, M1}
+MC_NoMaps == {}
+MC_NoGMaps == {NoMap}
 MC_GMaps3 == {NoMap, M1, M3}
 MC_RootUid == Zero
 MC_TestUid == Id(0, 1)
-MC_AllDefects == {"S6a", "S6b", "S7a", "S7b", "RM"}
-MC_None == {}
-MC_Bug_S6a == {"S6a"}
-MC_Bug_S6b == {"S6b"}
-MC_Bug_S7a == {"S7a"}
-MC_Bug_S7b == {"S7b"}
-MC_Bug_RM == {"RM"}
+\* all subsets of the modelled defects (S6a S6b S7a S7b RM), named by bit mask, for the generated configs
+D_00000 == {}
+D_10000 == {"S6a"}
+D_01000 == {"S6b"}
+D_11000 == {"S6a", "S6b"}
+D_00100 == {"S7a"}
+D_10100 == {"S6a", "S7a"}
+D_01100 == {"S6b", "S7a"}
+D_11100 == {"S6a", "S6b", "S7a"}
+D_00010 == {"S7b"}
+D_10010 == {"S6a", "S7b"}
+D_01010 == {"S6b", "S7b"}
+D_11010 == {"S6a", "S6b", "S7b"}
+D_00110 == {"S7a", "S7b"}
+D_10110 == {"S6a", "S7a", "S7b"}
+D_01110 == {"S6b", "S7a", "S7b"}
+D_11110 == {"S6a", "S6b", "S7a", "S7b"}
+D_00001 == {"RM"}
+D_10001 == {"S6a", "RM"}
+D_01001 == {"S6b", "RM"}
+D_11001 == {"S6a", "S6b", "RM"}
+D_00101 == {"S7a", "RM"}
+D_10101 == {"S6a", "S7a", "RM"}
+D_01101 == {"S6b", "S7a", "RM"}
+D_11101 == {"S6a", "S6b", "S7a", "RM"}
+D_00011 == {"S7b", "RM"}
+D_10011 == {"S6a", "S7b", "RM"}
+D_01011 == {"S6b", "S7b", "RM"}
+D_11011 == {"S6a", "S6b", "S7b", "RM"}
+D_00111 == {"S7a", "S7b", "RM"}
+D_10111 == {"S6a", "S7a", "S7b", "RM"}
+D_01111 == {"S6b", "S7a", "S7b", "RM"}
+D_11111 == {"S6a", "S6b", "S7a", "S7b", "RM"}
+MC_AllDefects == D_11111
+MC_None == D_00000
 ASSUME \A m \in MC_Maps3 : WellFormed(m)
 =============================================================================
